@@ -431,6 +431,17 @@ Section Sem.
     - rewrite D_zpw by exact Hv. field. exact Hv.
   Qed.
 
+  Lemma D_pow_sem_gen k vb part n :
+    vb <> 0 ->
+    match part with Some e => Pdom S vb e | None => True end ->
+    Dk k (pow_sem vb part n) =
+    pow_sem vb part n * (Dk k (part_val part) * E S Flog vb) + (part_val part + nm n) * pow_sem vb part n / vb * Dk k vb.
+  Proof.
+    intros Hv Hp. rewrite !pow_sem_eq. destruct part as [e|]; simpl.
+    - rewrite (D_mul S), D_zpw by exact Hv. rewrite (D_pow S) by assumption. field. exact Hv.
+    - rewrite D_zpw by exact Hv. rewrite Dz. field. exact Hv.
+  Qed.
+
   (* ---------------------------------------------------------------- numbers are constants *)
   Lemma number_const e : is_number e = true ->
     forall sd sd' i j i' j', gsem sd e i j = gsem sd' e i' j'.
@@ -1038,19 +1049,21 @@ Section Sem.
     cbn [pull_sem] in H. rewrite Forall_forall in H. now apply H.
   Qed.
 
-  Lemma conv_numbers a : conv_ok d a = true -> (forall l, a <> GAdd l) ->
-    filter (fun i => negb (is_comm d i)) (factors a) <> [] ->
-    Forall (fun x => is_number x = true) (filter (is_comm d) (factors a)).
+  (* the factors pulled out of the second argument (for Convect: commutative numbers only) are scalars *)
+  Lemma pulled2_scalars o a : (o <> OConvect -> pull_sem a) -> (forall l, a <> GAdd l) ->
+    filter (fun i => negb (pulled2 d o i)) (factors a) <> [] ->
+    Forall scalar_like (filter (pulled2 d o) (factors a)).
   Proof.
-    intros H Hna Hne.
-    destruct a as [p q|n|c|n|n|n c| |l|l|b x|f a|o a|o a b];
-      try (exfalso; eapply Hna; reflexivity);
-      try (cbn [factors filter] in *; match goal with |- context [is_comm d ?t] => destruct (is_comm d t) eqn:Ec end;
-           [simpl in Hne; now elim Hne|constructor]).
-    apply Forall_forall. intros x Hx. apply filter_In in Hx. destruct Hx as [Hin Hc].
-    simpl in H. rewrite forallb_forall in H. specialize (H x Hin). rewrite Hc in H. simpl in H. exact H.
+    intros P Hna Hne.
+    destruct o; try (apply pull_scalars; auto; apply P; discriminate).
+    apply Forall_forall. intros x Hx. apply filter_In in Hx. destruct Hx as [_ Hp]. cbn [pulled2] in Hp.
+    apply andb_true_iff in Hp. apply number_scalar. tauto.
   Qed.
 
+  Lemma pulled2_numbers a x : In x (filter (pulled2 d OConvect) (factors a)) -> is_number x = true /\ In x (factors a).
+  Proof.
+    intros Hx. apply filter_In in Hx. destruct Hx as [Hin Hp]. cbn [pulled2] in Hp. apply andb_true_iff in Hp. tauto.
+  Qed.
 
   Lemma mk_bil_zero_l fuel o a2 r : mk_bil d sgt fuel o gzero a2 = Ok r -> r = gzero.
   Proof.
@@ -1079,8 +1092,6 @@ Section Sem.
   Proof. simpl. rewrite forallb_forall. auto. Qed.
   Lemma pull_ok_in l x : pull_ok d (GAdd l) = true -> In x l -> pull_ok d x = true.
   Proof. simpl. rewrite forallb_forall. auto. Qed.
-  Lemma conv_ok_in l x : conv_ok d (GAdd l) = true -> In x l -> conv_ok d x = true.
-  Proof. simpl. rewrite forallb_forall. auto. Qed.
 
   Lemma forallb_filter {A} (q p : A -> bool) l : forallb q l = true -> forallb q (filter p l) = true.
   Proof.
@@ -1101,12 +1112,11 @@ Section Sem.
 
   Theorem mk_bil_core fuel : forall o a1 a2 r m,
     bilinear_op o = true -> mk_bil d sgt fuel o a1 a2 = Ok r ->
-    (o = OConvect -> gdf a2) -> pull_sem a1 -> pull_sem a2 ->
-    (o = OConvect -> conv_ok d a2 = true) ->
+    (o = OConvect -> gdf a2) -> pull_sem a1 -> (o <> OConvect -> pull_sem a2) ->
     (o = OInner -> inner_flag d m a1 = true /\ inner_flag d m a2 = true) ->
     forall sd i j, gsem sd r i j = sem2 o m (gsem sd a1) (gsem sd a2) i j.
   Proof.
-    induction fuel as [|k IH]; intros o a1 a2 r m Ho H HD P1 P2 HC HI sd i j; [discriminate|].
+    induction fuel as [|k IH]; intros o a1 a2 r m Ho H HD P1 P2 HI sd i j; [discriminate|].
     cbn [mk_bil] in H.
     (* Cross(u, u) = 0 *)
     destruct (match o with OCross => geqb a1 a2 | _ => false end) eqn:Eq.
@@ -1165,8 +1175,8 @@ Section Sem.
                       let fb := factors a2 in
                       let args1 := filter (fun i0 => negb (is_comm d i0)) fa in
                       let c1 := filter (is_comm d) fa in
-                      let args2 := filter (fun i0 => negb (is_comm d i0)) fb in
-                      let c2 := filter (is_comm d) fb in
+                      let args2 := filter (fun i0 => negb (pulled2 d o i0)) fb in
+                      let c2 := filter (pulled2 d o) fb in
                       match args1, args2 with
                       | [], _ | _, [] => Raise
                       | _, _ =>
@@ -1199,8 +1209,7 @@ Section Sem.
         + intros x y Hx Hxy. apply filter_In in Hx. destruct Hx as [Hx _].
           apply (IH o a1 x y m Ho Hxy); auto.
           * intros Hc. eapply gdf_in_add; eauto.
-          * eapply pull_sem_in; eauto.
-          * intros Hc. eapply conv_ok_in; eauto.
+          * intros Hc. apply (pull_sem_in l x (P2 Hc) Hx).
           * intros Hi. destruct (HI Hi) as [I1 I2]. split; auto. eapply inner_flag_in; eauto.
       - destruct (filter (fun i0 => negb (has_types i0)) l) as [|b0 br] eqn:Eb.
         + cbn [gadd_raw] in Hb. apply mk_bil_zero_r in Hb; auto. subst rb. rewrite gzero_sem. simpl. ring.
@@ -1210,8 +1219,7 @@ Section Sem.
           * erewrite sem2_ext; [|intros; reflexivity|intros; apply gadd_raw_as_fsum].
             rewrite sem2_fsum_r, map_map. ring.
           * intros Hc. apply gdf_filter_add. auto.
-          * now apply pull_sem_gadd_raw.
-          * intros Hc. apply guard_gadd_raw; auto.
+          * intros Hc. apply pull_sem_gadd_raw. auto.
           * intros Hi. destruct (HI Hi) as [I1 I2]. split; auto. apply guard_gadd_raw; auto.
     }
     assert (N2 : forall l, a2 <> GAdd l) by (intros l ->; discriminate).
@@ -1219,8 +1227,8 @@ Section Sem.
     set (fa := factors a1) in *. set (fb := factors a2) in *.
     set (args1 := filter (fun i0 => negb (is_comm d i0)) fa) in *.
     set (c1 := filter (is_comm d) fa) in *.
-    set (args2 := filter (fun i0 => negb (is_comm d i0)) fb) in *.
-    set (c2 := filter (is_comm d) fb) in *.
+    set (args2 := filter (fun i0 => negb (pulled2 d o i0)) fb) in *.
+    set (c2 := filter (pulled2 d o) fb) in *.
     assert (H' : match args1, args2 with
                  | [], _ | _, [] => Raise
                  | _, _ =>
@@ -1248,22 +1256,21 @@ Section Sem.
     { destruct args1; [now elim A1|]. destruct args2; [now elim A2|]. exact H. }
     clear H. rename H' into H. cbv zeta in H.
     pose proof (pull_scalars a1 P1 N1 A1) as S1. fold fa c1 in S1.
-    pose proof (pull_scalars a2 P2 N2 A2) as S2. fold fb c2 in S2.
+    pose proof (pulled2_scalars o a2 P2 N2 A2) as S2. fold fb c2 in S2.
     set (g1 := fprod (map (fun x => gsem sd x O O) c1)).
     set (g2 := fprod (map (fun x => gsem sd x O O) c2)).
     assert (V1 : forall i' j', gsem sd a1 i' j' = g1 * gsem sd (gmul args1) i' j').
     { intros i' j'. rewrite (factors_sem a1). fold fa. rewrite (fprod_filter (is_comm d)). fold c1 args1.
       rewrite (scalars_const c1) by exact S1. rewrite gmul_sem. reflexivity. }
     assert (V2 : forall i' j', gsem sd a2 i' j' = g2 * gsem sd (gmul args2) i' j').
-    { intros i' j'. rewrite (factors_sem a2). fold fb. rewrite (fprod_filter (is_comm d)). fold c2 args2.
+    { intros i' j'. rewrite (factors_sem a2). fold fb. rewrite (fprod_filter (pulled2 d o)). fold c2 args2.
       rewrite (scalars_const c2) by exact S2. rewrite gmul_sem. reflexivity. }
     assert (Dg2 : o = OConvect -> forall k', Dk k' g2 = 0).
     { intros Hc k'. unfold g2. apply D_fprod_zero. apply Forall_forall. intros y Hy.
       apply in_map_iff in Hy. destruct Hy as [z [<- Hz]].
-      pose proof (conv_numbers a2 (HC Hc) N2 A2) as Nn. fold fb c2 in Nn. rewrite Forall_forall in Nn.
+      unfold c2, fb in Hz. rewrite Hc in Hz. apply pulled2_numbers in Hz. destruct Hz as [Nz Hin].
       apply number_D; auto.
-      assert (Hin : In z fb) by (apply filter_In in Hz; tauto).
-      unfold fb, factors in Hin. destruct a2; try (destruct Hin as [<-|[]]; exact (HD Hc)).
+      unfold factors in Hin. destruct a2; try (destruct Hin as [<-|[]]; exact (HD Hc)).
       eapply gdf_in_mul; [exact (HD Hc)|exact Hin]. }
     assert (Cv : forall i' j', gsem sd (gmul [gmul c1; gmul c2]) i' j' = g1 * g2).
     { intros i' j'. rewrite gmul_sem. cbn [map DOpP.fprod]. rewrite !gmul_sem.
@@ -1278,7 +1285,7 @@ Section Sem.
       destruct a1; try (exfalso; eapply N1; reflexivity); cbn [inner_flag] in I1; apply Bool.eqb_prop in I1; exact I1. }
     assert (F2 : o = OInner -> is_mat_shape (gmul args2) = m).
     { intros Hi. destruct (HI Hi) as [_ I2]. unfold is_mat_shape.
-      unfold args2, fb, factors.
+      unfold args2, fb, factors. rewrite Hi. cbn [pulled2].
       destruct a2; try (exfalso; eapply N2; reflexivity); cbn [inner_flag] in I2; apply Bool.eqb_prop in I2; exact I2. }
     rewrite Main.
     destruct o; try discriminate.
@@ -1304,10 +1311,11 @@ Section Sem.
   Theorem mk_bil_sound fuel o a1 a2 r :
     (o = ODot \/ o = OCross \/ o = OOuter \/ o = OConvect) ->
     mk_bil d sgt fuel o a1 a2 = Ok r -> (o = OConvect -> gdf a2) ->
-    pull_ok d a1 = true -> pull_ok d a2 = true -> (o = OConvect -> conv_ok d a2 = true) ->
+    pull_ok d a1 = true -> (o <> OConvect -> pull_ok d a2 = true) ->
     geq r (G2 o a1 a2).
   Proof.
-    intros Ho H D2 P1 P2 HC sd i j. cbn [gsem]. apply pull_ok_sem in P1, P2.
+    intros Ho H D2 P1 P2 sd i j. cbn [gsem]. apply pull_ok_sem in P1.
+    assert (P2' : o <> OConvect -> pull_sem a2) by (intros Hc; apply pull_ok_sem; auto).
     apply (mk_bil_core fuel o a1 a2 r (is_mat_shape a1)); auto.
     - destruct Ho as [->|[->|[->| ->]]]; reflexivity.
     - intros ->. destruct Ho as [Ho|[Ho|[Ho|Ho]]]; discriminate.
@@ -1731,7 +1739,7 @@ Section Sem.
         set (X := gsem sd x O O). set (R := fprod (map (fun x0 => gsem sd x0 O O) (y :: rest))).
         replace (A * 1 * (X * R) * 1) with (A * X * R) by ring. rewrite D3 by apply DA. ring.
     - (* Pow *)
-      apply andb_true_iff in Hg. destruct Hg as [Hg Hgb]. apply andb_true_iff in Hg. destruct Hg as [Nx Cx].
+      apply andb_true_iff in Hg. destruct Hg as [Hg Hgx]. apply andb_true_iff in Hg. destruct Hg as [Cx Hgb].
       simpl in Hcs. apply andb_true_iff in Hcs. destruct Hcs as [Cb Sp]. apply andb_true_iff in Cb. destruct Cb as [Cb Cxx].
       assert (Ssc : scalar_like (GPow b x)) by now apply is_scalar_sem.
       assert (Sb : scalar_like b /\ scalar_like x).
@@ -1741,32 +1749,62 @@ Section Sem.
         split; now apply scalar_sem. }
       destruct Sb as [Sb Sx].
       destruct Hd as (Db & Dx & Hq).
-      apply bind_ok in H. destruct H as [a [Ha H]].
-      assert (IHa : geq a (G1 OGrad b)) by (apply (IH _ _ Ha); auto).
-      intros sd i j.
-      assert (R : gsem sd r i j = gsem sd x i j * gsem sd (gpow b (gsub1 x)) i j * gsem sd a i j).
-      { destruct a; inversion H; subst; try (rewrite gmul_sem; cbn [map DOpP.fprod]; ring).
-        rewrite gadd_sem, map_map.
-        erewrite map_ext; [|intros t; rewrite gmul_sem; cbn [map DOpP.fprod]; reflexivity].
-        cbn [gsem].
-        rewrite <- (fsum_scal (gsem sd x i j * gsem sd (gpow b (gsub1 x)) i j) (fun t => gsem sd t i j)).
-        f_equal. apply map_ext. intros t. ring. }
-      rewrite R. clear R H.
-      destruct (Hq sd j O) as [Hnz Hpd].
-      rewrite (IHa sd i j). cbn [gsem sem1].
-      set (vb := gsem sd b j O) in *. set (vx := gsem sd x j O) in *.
-      rewrite D_pow_sem.
-      2:{ exact Hnz. }
-      2:{ pose proof (pow_split_D x vx i (number_D x Nx Dx sd j O i) Dx) as HD.
-          destruct (fst (pow_split x vx)); auto. }
-      rewrite <- (pow_split_val x vx Dx) by apply gsem_exponent_shape.
-      assert (E1 : gsem sd x i j = vx) by (unfold vx; rewrite (Sx sd i j), (Sx sd j O); reflexivity).
-      assert (E2 : gsem sd (gpow b (gsub1 x)) i j * vb = pow_sem vb (fst (pow_split x vx)) (snd (pow_split x vx))).
-      { assert (Eb : gsem sd b i j = vb) by (unfold vb; rewrite (Sb sd i j), (Sb sd j O); reflexivity).
-        transitivity (gsem sd (GPow b x) i j).
-        - rewrite <- Eb. apply pow_step; auto. rewrite Eb. exact Hnz.
-        - rewrite (Ssc sd i j), <- (Ssc sd j O). reflexivity. }
-      rewrite E1, <- E2. field. exact Hnz.
+      assert (COMMON : forall sd i j,
+                let vb := gsem sd b j O in let vx := gsem sd x j O in
+                vb <> 0 /\ gsem sd x i j = vx /\ gsem sd b i j = vb /\
+                gsem sd (gpow b (gsub1 x)) i j * vb = pow_sem vb (fst (pow_split x vx)) (snd (pow_split x vx)) /\
+                gsem sd (GPow b x) i j = pow_sem vb (fst (pow_split x vx)) (snd (pow_split x vx)) /\
+                vx = part_val (fst (pow_split x vx)) + nm (snd (pow_split x vx)) /\
+                match fst (pow_split x vx) with Some e => Pdom S vb e | None => True end).
+      { intros sd i j vb vx. destruct (Hq sd j O) as [Hnz Hpd].
+        assert (E1 : gsem sd x i j = vx) by (unfold vx; rewrite (Sx sd i j), (Sx sd j O); reflexivity).
+        assert (Eb : gsem sd b i j = vb) by (unfold vb; rewrite (Sb sd i j), (Sb sd j O); reflexivity).
+        assert (Ep : gsem sd (GPow b x) i j = pow_sem vb (fst (pow_split x vx)) (snd (pow_split x vx))).
+        { rewrite (Ssc sd i j), <- (Ssc sd j O). reflexivity. }
+        repeat split; auto.
+        - rewrite <- Ep, <- Eb. apply pow_step; auto. rewrite Eb. exact Hnz.
+        - apply (pow_split_val x vx Dx). apply gsem_exponent_shape. }
+      destruct (is_number x) eqn:Nx; cbn [negb] in H.
+      + (* constant exponent *)
+        apply bind_ok in H. destruct H as [a [Ha H]].
+        assert (IHa : geq a (G1 OGrad b)) by (apply (IH _ _ Ha); auto).
+        intros sd i j.
+        assert (R : gsem sd r i j = gsem sd x i j * gsem sd (gpow b (gsub1 x)) i j * gsem sd a i j).
+        { destruct a; inversion H; subst; try (rewrite gmul_sem; cbn [map DOpP.fprod]; ring).
+          rewrite gadd_sem, map_map.
+          erewrite map_ext; [|intros t; rewrite gmul_sem; cbn [map DOpP.fprod]; reflexivity].
+          cbn [gsem].
+          rewrite <- (fsum_scal (gsem sd x i j * gsem sd (gpow b (gsub1 x)) i j) (fun t => gsem sd t i j)).
+          f_equal. apply map_ext. intros t. ring. }
+        rewrite R. clear R H.
+        destruct (COMMON sd i j) as (Hnz & E1 & Eb & E2 & Ep & Ev & Hpd).
+        rewrite (IHa sd i j). cbn [gsem sem1].
+        set (vb := gsem sd b j O) in *. set (vx := gsem sd x j O) in *.
+        rewrite D_pow_sem.
+        2:{ exact Hnz. }
+        2:{ pose proof (pow_split_D x vx i (number_D x Nx Dx sd j O i) Dx) as HD.
+            destruct (fst (pow_split x vx)); auto. }
+        rewrite <- Ev. rewrite E1, <- E2. field. exact Hnz.
+      + (* the general power rule *)
+        cbn [orb] in Hgx.
+        apply bind_ok in H. destruct H as [db [Hdb H]]. apply bind_ok in H. destruct H as [dx [Hdx H]].
+        inversion H; subst r. clear H.
+        assert (IHb : geq db (G1 OGrad b)) by (apply (IH _ _ Hdb); auto).
+        assert (IHx : geq dx (G1 OGrad x)) by (apply (IH _ _ Hdx); auto).
+        intros sd i j.
+        destruct (COMMON sd i j) as (Hnz & E1 & Eb & E2 & Ep & Ev & Hpd).
+        rewrite gadd_sem. cbn [map DOpP.fsum]. rewrite !gmul_sem. cbn [map DOpP.fprod].
+        rewrite (IHb sd i j), (IHx sd i j), Ep.
+        change (gsem sd (GFn Flog b) i j) with (E S Flog (gsem sd b i j)). rewrite Eb.
+        change (gsem sd (G1 OGrad b) i j) with (Dk i (gsem sd b j O)).
+        change (gsem sd (G1 OGrad x) i j) with (Dk i (gsem sd x j O)).
+        change (gsem sd (G1 OGrad (GPow b x)) i j) with
+          (Dk i (pow_sem (gsem sd b j O) (fst (pow_split x (gsem sd x j O))) (snd (pow_split x (gsem sd x j O))))).
+        set (vb := gsem sd b j O) in *. set (vx := gsem sd x j O) in *.
+        rewrite D_pow_sem_gen by assumption.
+        assert (Dv : Dk i vx = Dk i (part_val (fst (pow_split x vx)))).
+        { rewrite Ev at 1. rewrite (D_add S), D_nm. ring. }
+        rewrite <- Dv, <- Ev, E1, <- E2. field. exact Hnz.
   Qed.
 
   (* ================================================================ well-formedness of the results *)
@@ -2044,11 +2082,22 @@ Section Sem.
       { unfold is_scalar in *. simpl in Sp.
         destruct (gshape d b) as [[| |]|]; try discriminate. destruct (gshape d x) as [[| |]|]; try discriminate. auto. }
       destruct Sb as [Sb Sx].
-      apply bind_ok in H. destruct H as [a [Ha H]].
-      assert (Ga : Good a) by (eapply IH; eauto).
       assert (Gx : Good x) by now apply Good_of_cs.
       assert (Ge : Good (gpow b (gsub1 x))).
       { apply gpow_good; [now apply Good_of_cs|now apply is_scalar_sem|apply gsub1_scalar; now apply is_scalar_sem]. }
+      destruct (negb (is_number x)).
+      { (* general power rule *)
+        apply bind_ok in H. destruct H as [db [Hdb H]]. apply bind_ok in H. destruct H as [dx [Hdx H]].
+        inversion H; subst r. clear H.
+        assert (Gdb : Good db) by (eapply IH; eauto).
+        assert (Gdx : Good dx) by (eapply IH; eauto).
+        assert (Gp : Good (GPow b x)).
+        { split; [exact I|]. intros _. apply pow_scalar; now apply is_scalar_sem. }
+        assert (Gl : Good (GFn Flog b)).
+        { split; [exact I|]. intros _ sd i j. cbn [gsem]. now rewrite (is_scalar_sem b Sb sd i j). }
+        apply Good_gadd. constructor; [|constructor; [|constructor]]; apply Good_gmul; repeat (constructor; auto). }
+      apply bind_ok in H. destruct H as [a [Ha H]].
+      assert (Ga : Good a) by (eapply IH; eauto).
       destruct a; inversion H; subst; try (apply Good_gmul; repeat (constructor; auto)).
       apply Good_gadd. destruct Ga as [Ga _]. apply CS2_add in Ga.
       apply Forall_forall. intros t Ht. apply in_map_iff in Ht. destruct Ht as [u [<- Hu]].
@@ -2152,11 +2201,15 @@ Section Sem.
       destruct vectors as [|x [|y [|z rest]]] eqn:Ev.
       + exfalso. rewrite (all_numbers_no_types l Ev) in Et. discriminate.
       + inversion H; subst. rewrite gmul_sem. cbn [map DOpP.fprod gmul_raw]. rewrite gmul_sem. ring.
-      + (* two factors *)
-        destruct coeffs as [|c0 cr] eqn:Ec; [|discriminate]. cbn [map DOpP.fprod].
+      + (* two factors: a*(f div F + F . grad f) when one of them is a VectorFunction *)
+        set (A := fprod (map (fun x0 => gsem sd x0 i j) coeffs)).
+        assert (HA0 : gsem sd (gmul coeffs) i j = A) by apply gmul_sem.
         assert (Dv : Forall gdf [x; y]).
         { rewrite <- Ev. apply Forall_filter. now apply gdf_mul. }
         inversion Dv as [|? ? Dx Dy']; subst. inversion Dy' as [|? ? Dy _]; subst.
+        assert (FB : forall r', Ok (gmul [gmul coeffs; G1 ODiv (gmul_raw [x; y])]) = Ok r' ->
+                     gsem sd r' i j = A * gsem sd (G1 ODiv (gmul_raw [x; y])) i j).
+        { intros r' E. inversion E; subst r'. rewrite gmul_sem. cbn [map DOpP.fprod gmul_raw]. rewrite HA0. ring. }
         assert (R : forall f F, is_vecfun F = true -> f_ok d f = true -> gdf f ->
                     (forall jj kk, gsem sd (G1 ODiv (gmul_raw [x; y])) jj kk =
                                    sumn d (fun i0 => Dk i0 (gsem sd F i0 jj * gsem sd f i0 jj))) ->
@@ -2165,28 +2218,30 @@ Section Sem.
                         match mk_grad d k f with
                         | Ok gf =>
                             match mk_bil d sgt k ODot F gf with
-                            | Ok dt => Ok (gadd [gmul [f; dF]; dt])
-                            | Raise => Ok (G1 ODiv (gmul_raw [x; y]))
+                            | Ok dt => Ok (gmul [gmul coeffs; gadd [gmul [f; dF]; dt]])
+                            | Raise => Ok (gmul [gmul coeffs; G1 ODiv (gmul_raw [x; y])])
                             | NoFuel => NoFuel
                             end
-                        | Raise => Ok (G1 ODiv (gmul_raw [x; y]))
+                        | Raise => Ok (gmul [gmul coeffs; G1 ODiv (gmul_raw [x; y])])
                         | NoFuel => NoFuel
                         end
-                    | Raise => Ok (G1 ODiv (gmul_raw [x; y]))
+                    | Raise => Ok (gmul [gmul coeffs; G1 ODiv (gmul_raw [x; y])])
                     | NoFuel => NoFuel
                     end = Ok r ->
-                    gsem sd r i j = 1 * gsem sd (G1 ODiv (gmul_raw [x; y])) i j).
+                    gsem sd r i j = A * gsem sd (G1 ODiv (gmul_raw [x; y])) i j).
         { intros f F HF Hf Df HL HR.
           apply andb_true_iff in Hf. destruct Hf as [Hf Gf]. apply andb_true_iff in Hf. destruct Hf as [Sf Cf].
-          destruct (mk_div d sgt k F) as [dF| |] eqn:EF; try discriminate; [|inversion HR; subst; cbn [gmul_raw]; ring].
+          destruct (mk_div d sgt k F) as [dF| |] eqn:EF; try discriminate; [|now apply FB].
           destruct F; try discriminate. apply mk_div_vecfun in EF. subst dF.
-          destruct (mk_grad d k f) as [gf| |] eqn:Egf; try discriminate; [|inversion HR; subst; cbn [gmul_raw]; ring].
-          destruct (mk_bil d sgt k ODot (GVF n) gf) as [dt| |] eqn:Edt; try discriminate; [|inversion HR; subst; cbn [gmul_raw]; ring].
+          destruct (mk_grad d k f) as [gf| |] eqn:Egf; try discriminate; [|now apply FB].
+          destruct (mk_bil d sgt k ODot (GVF n) gf) as [dt| |] eqn:Edt; try discriminate; [|now apply FB].
           inversion HR; subst r. clear HR.
           pose proof (mk_grad_sound k f gf Egf Df Cf Gf) as Sg.
           pose proof (mk_grad_good k f gf Egf Cf) as [Cg _].
+          rewrite gmul_sem. cbn [map DOpP.fprod]. rewrite HA0.
           rewrite gadd_sem. cbn [map DOpP.fsum]. rewrite gmul_sem. cbn [map DOpP.fprod].
-          rewrite (mk_bil_core k ODot (GVF n) gf dt false eq_refl Edt); try discriminate; try exact I; try (now apply CS2_pull).
+          rewrite (mk_bil_core k ODot (GVF n) gf dt false eq_refl Edt); try discriminate; try exact I;
+            try (intros _; now apply CS2_pull).
           rewrite HL. rewrite (div_fF (gsem sd (GVF n)) (gsem sd f) i (is_scalar_sem f Sf sd)).
           cbn [gsem sem1 sem2]. unfold dotv.
           rewrite (is_scalar_sem f Sf sd i j).
@@ -2195,12 +2250,12 @@ Section Sem.
           { apply sumn_ext. intros k0 _. rewrite (Sg sd k0 O). reflexivity. }
           rewrite E. ring. }
         destruct (is_vecfun x) eqn:Vx.
-        * simpl in Hg. rewrite orb_false_r in Hg.
-          apply (R y x Vx Hg Dy); [|exact H].
+        * apply (R y x Vx Hg Dy); [|exact H].
           intros jj kk. cbn [gmul_raw gsem sem1 map DOpP.fprod]. apply sumn_ext. intros i0 _. f_equal. ring.
-        * simpl in Hg. apply andb_true_iff in Hg. destruct Hg as [Vy Fx]. rewrite Vy in H.
-          apply (R x y Vy Fx Dx); [|exact H].
-          intros jj kk. cbn [gmul_raw gsem sem1 map DOpP.fprod]. apply sumn_ext. intros i0 _. f_equal. ring.
+        * destruct (is_vecfun y) eqn:Vy.
+          -- apply (R x y Vy Hg Dx); [|exact H].
+             intros jj kk. cbn [gmul_raw gsem sem1 map DOpP.fprod]. apply sumn_ext. intros i0 _. f_equal. ring.
+          -- now apply FB.
       + (* more than two non-numeric factors *)
         inversion H; subst. rewrite gmul_sem. cbn [map DOpP.fprod gmul_raw]. rewrite gmul_sem. ring.
     - (* Div(Curl) = 0 *)
@@ -2219,8 +2274,8 @@ Section Sem.
       pose proof (mk_lin_good k OCurl a ca (or_introl eq_refl) Hca) as [Ga _].
       pose proof (mk_lin_good k OCurl b cb (or_introl eq_refl) Hcb) as [Gb _].
       intros sd i j. rewrite gadd_sem. cbn [map DOpP.fsum]. rewrite gneg_sem.
-      rewrite (mk_bil_core k ODot b ca t1 false eq_refl Ht1); try discriminate; try (now apply cs_ok_pull); try (now apply CS2_pull).
-      rewrite (mk_bil_core k ODot a cb t2 false eq_refl Ht2); try discriminate; try (now apply cs_ok_pull); try (now apply CS2_pull).
+      rewrite (mk_bil_core k ODot b ca t1 false eq_refl Ht1); try discriminate; try (now apply cs_ok_pull); try (intros _; now apply CS2_pull).
+      rewrite (mk_bil_core k ODot a cb t2 false eq_refl Ht2); try discriminate; try (now apply cs_ok_pull); try (intros _; now apply CS2_pull).
       cbn [gsem]. rewrite (div_cross (gsem sd a) (gsem sd b) D3' (is_mat_shape a) false sd sd sd
                              _ _ (gsem SMinus a) (gsem SPlus a) (gsem SMinus b) (gsem SPlus b)).
       cbn [sem2]. unfold dotv.
@@ -2291,6 +2346,10 @@ Section Sem.
       destruct vectors as [|f [|g [|z rest]]] eqn:Ev;
         try (inversion H; subst; rewrite gmul_sem; cbn [map DOpP.fprod gmul_raw]; rewrite gmul_sem; ring).
       (* f * g *)
+      destruct (is_comm d f && is_comm d g) eqn:Ecm; cbn [negb] in H.
+      2:{ (* a non-commutative (vector) factor: no product rule *)
+          inversion H; subst. rewrite gmul_sem. cbn [map DOpP.fprod gmul_raw]. rewrite gmul_sem. ring. }
+      cbn [negb orb] in Hg.
       apply andb_true_iff in Hg. destruct Hg as [Hg Hrec]. apply andb_true_iff in Hg. destruct Hg as [Ff Fg].
       assert (Dv : Forall gdf [f; g]).
       { rewrite <- Ev. apply Forall_filter. now apply gdf_mul. }
@@ -2318,7 +2377,7 @@ Section Sem.
       rewrite gmul_sem. cbn [map DOpP.fprod]. rewrite gmul_sem.
       rewrite gadd_sem. cbn [map DOpP.fsum]. rewrite !gmul_sem. cbn [map DOpP.fprod].
       rewrite (ILg sd i j), (ILf sd i j), gint_sem.
-      rewrite (mk_bil_core k ODot gf gg dt false eq_refl Hdt); try discriminate; try (now apply CS2_pull).
+      rewrite (mk_bil_core k ODot gf gg dt false eq_refl Hdt); try discriminate; try (now apply CS2_pull); try (intros _; now apply CS2_pull).
       cbn [gmul_raw gsem sem1 sem2 map DOpP.fprod]. unfold dotv.
       rewrite (is_scalar_sem f Sf sd i j), (is_scalar_sem g Sg sd i j).
       rewrite laplace_fg.
@@ -2628,7 +2687,7 @@ Section Sem.
       { destruct o; try discriminate; cbn in Hgu; congruence. }
       subst gu.
       intros sd i j.
-      rewrite (mk_bil_core _ ODot _ _ r false eq_refl H); try discriminate; try exact I.
+      rewrite (mk_bil_core _ ODot _ _ r false eq_refl H); try discriminate; try exact I; try (intros _; exact I).
       destruct o; try discriminate; cbn [gsem sem1 sem2]; unfold dotv; apply sumn_ext; intros; reflexivity.
   Qed.
 End Sem.
@@ -2721,40 +2780,49 @@ Section Witnesses.
   Let den (dm : nat) (r : res) := match r with Ok e => gden true dm SNone e | _ => None end.
   Let lit (dm : nat) (e : gexpr) := gden true dm SNone e.
 
-  (* Div.eval: a, b = vectors overwrites the numeric coefficient *)
-  Lemma mk_div_refuted_coefficient :
-    let e := GMul [gint 2; f; FF] in
-    div_guard 2 e = false /\ exists r, mk_div 2 str_gt 50 e = Ok r /\ tens_differ (den 2 (Ok r)) (lit 2 (G1 ODiv e)) = true.
-  Proof. split; [reflexivity|]. eexists. split; [vm_compute; reflexivity|vm_compute; reflexivity]. Qed.
+  (* ---- repaired in /repo (e4bcf21, bbebe2f, 72e9968, f9bc83f): the former counter-examples are now inside the
+     guards and the kernel proves, per witness, that the model result has the meaning of the literal ---- *)
+  Lemma mk_div_repaired :
+    (let e := GMul [gint 2; f; FF] in
+     div_guard 2 e = true /\ exists r, mk_div 2 str_gt 50 e = Ok r /\ cmp (den 2 (Ok r)) (lit 2 (G1 ODiv e)) = 0%nat) /\
+    (let e := GMul [f; G1 OGrad g] in
+     div_guard 2 e = true /\ exists r, mk_div 2 str_gt 50 e = Ok r /\ cmp (den 2 (Ok r)) (lit 2 (G1 ODiv e)) = 0%nat).
+  Proof. split; (split; [reflexivity|]); eexists; (split; [vm_compute; reflexivity|vm_compute; reflexivity]). Qed.
 
-  (* Div.eval: f * V with V not a VectorFunction is multiplied by its own first factor *)
-  Lemma mk_div_refuted_nonatom :
-    let e := GMul [f; G1 OGrad g] in
-    div_guard 2 e = false /\ exists r, mk_div 2 str_gt 50 e = Ok r /\ tens_differ (den 2 (Ok r)) (lit 2 (G1 ODiv e)) = true.
-  Proof. split; [reflexivity|]. eexists. split; [vm_compute; reflexivity|vm_compute; reflexivity]. Qed.
+  Lemma mk_grad_repaired_power_rule :
+    (let e := GPow f g in
+     grad_guard 2 e = true /\ cs_ok 2 e = true /\
+     exists r, mk_grad 2 50 e = Ok r /\ cmp (den 2 (Ok r)) (lit 2 (G1 OGrad e)) = 0%nat) /\
+    (let e := GPow (gint 2) f in
+     grad_guard 2 e = true /\ cs_ok 2 e = true /\
+     exists r, mk_grad 2 50 e = Ok r /\ cmp (den 2 (Ok r)) (lit 2 (G1 OGrad e)) = 0%nat).
+  Proof. split; (split; [reflexivity|]); (split; [reflexivity|]); eexists; (split; [vm_compute; reflexivity|vm_compute; reflexivity]). Qed.
 
-  (* Grad.eval: the power rule is applied with a non-constant exponent *)
-  Lemma mk_grad_refuted_variable_exponent :
-    let e := GPow f g in
-    grad_guard 2 e = false /\ exists r, mk_grad 2 50 e = Ok r /\ tens_differ (den 2 (Ok r)) (lit 2 (G1 OGrad e)) = true.
-  Proof. split; [reflexivity|]. eexists. split; [vm_compute; reflexivity|vm_compute; reflexivity]. Qed.
-  Lemma mk_grad_refuted_constant_base :
-    let e := GPow (gint 2) f in
-    grad_guard 2 e = false /\ mk_grad 2 50 e = Ok gzero /\ tens_differ (Some (Sc (TZ 0))) (lit 2 (G1 OGrad e)) = true.
-  Proof. split; [reflexivity|]. split; vm_compute; reflexivity. Qed.
-
-  (* Convect: a scalar function factor is pulled out of the differentiated argument *)
-  Lemma mk_convect_refuted :
+  Lemma mk_convect_repaired :
     let a2 := GMul [f; GG] in
-    conv_ok 2 a2 = false /\ exists r, mk_bil 2 str_gt 50 OConvect FF a2 = Ok r /\
-    tens_differ (den 2 (Ok r)) (lit 2 (G2 OConvect FF a2)) = true.
-  Proof. split; [reflexivity|]. eexists. split; [vm_compute; reflexivity|vm_compute; reflexivity]. Qed.
+    mk_bil 2 str_gt 50 OConvect FF a2 = Ok (G2 OConvect FF a2).
+  Proof. vm_compute. reflexivity. Qed.
 
-  (* Laplace.eval: laplace(f F) produces Dot(Grad(F), Grad(f)) (matrix . vector): no classical meaning *)
-  Lemma mk_laplace_refuted_vector :
+  Lemma mk_laplace_repaired_vector :
     let e := GMul [f; FF] in
+    laplace_guard 2 e = true /\ mk_laplace 2 str_gt 50 e = Ok (G1 OLaplace e).
+  Proof. split; vm_compute; reflexivity. Qed.
+
+  (* ---- still open ---- *)
+  (* the code equates "commutative" with "scalar": a commutative vector (Laplace(H), Div(Grad(H))) is taken for a
+     scalar coefficient / scalar factor.  laplace(Laplace(H)*f) still gets the scalar product rule *)
+  Lemma mk_laplace_refuted_commutative_vector :
+    let e := GMul [G1 OLaplace (GVF "H"); f] in
     laplace_guard 2 e = false /\ exists r, mk_laplace 2 str_gt 50 e = Ok r /\
     den 2 (Ok r) = None /\ (exists t, lit 2 (G1 OLaplace e) = Some t).
+  Proof.
+    split; [reflexivity|]. eexists. split; [vm_compute; reflexivity|]. split; [vm_compute; reflexivity|].
+    eexists. vm_compute. reflexivity.
+  Qed.
+  Lemma mk_bil_refuted_commutative_vector :
+    let a1 := GMul [G2 OCross GG (GVF "H"); G1 ODiv (G2 OOuter FF FF)] in     (* scalar (2-D cross) times vector *)
+    pull_ok 2 a1 = false /\ exists r, mk_bil 2 str_gt 50 ODot a1 GG = Ok r /\
+    den 2 (Ok r) = None /\ (exists t, lit 2 (G2 ODot a1 GG) = Some t).
   Proof.
     split; [reflexivity|]. eexists. split; [vm_compute; reflexivity|]. split; [vm_compute; reflexivity|].
     eexists. vm_compute. reflexivity.
